@@ -90,7 +90,11 @@ class IntVec:
         if isinstance(idx, slice):
             if idx.start is None and idx.stop is None and idx.step == -1:
                 n = self.n
-                return IntVec(n, lambda k: self.at(n - 1 - k))
+                out = IntVec(n, lambda k: self.at(n - 1 - k))
+                inv = getattr(self, "inv", None)
+                if inv is not None:
+                    out.inv = lambda t: n - 1 - inv(t)          # the reverse of a permutation is a permutation
+                return out
             if idx.start is None and idx.stop is None and idx.step is None:
                 return self
             if idx.stop is None and idx.step is None and isinstance(idx.start, (int, z3.ArithRef)):
